@@ -78,7 +78,7 @@ def _norm(recipe):
   return json.loads(json.dumps(recipe))
 
 
-def build_recipe(qt, steps):
+def build_recipe(qt, steps, notes=None):
   """Drive the API; refused/ill-formed steps are skipped (counted by the caller)."""
   n_ok = 0
   for s in steps:
@@ -100,6 +100,10 @@ def build_recipe(qt, steps):
         n_ok += 1
       except ValueError:
         pass
+      except Exception as e:  # pylint: disable=broad-except
+        # a refusal of another type is C13's subject; here the step is simply refused
+        if notes is not None:
+          notes.append('step_refused_with:' + type(e).__name__)
     else:
       rules = []
       for r in s['rules']:
@@ -115,6 +119,9 @@ def build_recipe(qt, steps):
         n_ok += 1
       except ValueError:
         pass
+      except Exception as e:  # pylint: disable=broad-except
+        if notes is not None:
+          notes.append('step_refused_with:' + type(e).__name__)
   return n_ok
 
 
@@ -122,9 +129,10 @@ def check_case(case):
   register_user_algorithm()
   model_bytes = G.build(case['model'])
   qt = quantizer_mod.Quantizer(model_bytes)
-  build_recipe(qt, case['steps'])
+  notes = []
+  build_recipe(qt, case['steps'], notes)
   recipe = qt.get_quantization_recipe()
-  labels = ['rules=%d' % min(len(recipe), 6)]
+  labels = ['rules=%d' % min(len(recipe), 6)] + sorted(set(notes))
   if any(str(getattr(e['algorithm_key'], 'value', e['algorithm_key'])) == USER_ALGO for e in recipe):
     labels.append('user_registered_algorithm')
   if any((e.get('op_config', {}).get('weight_tensor_config') or {}).get('block_size') for e in _norm(recipe)):
@@ -145,8 +153,13 @@ def check_case(case):
     raise Violation('reloaded_recipe_differs', 'exported %s reloaded %s' % (text[:500], json.dumps(recipe2)[:500]))
   for op in c11.Q_OPS:
     for scope in c11.Q_SCOPES:
-      a = qt._recipe_manager.get_quantization_configs(qtyping.TFLOperationName(op), scope)  # pylint: disable=protected-access
-      b = qt2._recipe_manager.get_quantization_configs(qtyping.TFLOperationName(op), scope)  # pylint: disable=protected-access
+      oka, a = core.call(qt._recipe_manager.get_quantization_configs, qtyping.TFLOperationName(op), scope)  # pylint: disable=protected-access
+      okb, b = core.call(qt2._recipe_manager.get_quantization_configs, qtyping.TFLOperationName(op), scope)  # pylint: disable=protected-access
+      if oka != okb or (not oka and type(a) is not type(b)):
+        raise Violation('reloaded_recipe_resolves_differently',
+                        'op=%s scope=%r: original %s, reloaded %s' % (op, scope, a if not oka else 'resolves', b if not okb else 'resolves'))
+      if not oka:
+        continue
       if str(getattr(a[0], 'value', a[0])) != str(getattr(b[0], 'value', b[0])) or a[1] != b[1]:
         raise Violation('reloaded_recipe_resolves_differently', 'op=%s scope=%r: %s vs %s' % (op, scope, a, b))
   # same model, same statistics -> byte-identical output
